@@ -576,7 +576,8 @@ def run_session(case):
             elif op == 10:
                 App.get_event_loop().force_quit()
             elif op == 11:
-                screens[me].get_user_input("value: ")
+                # every other screen asks with hidden=True (PasswordInputHandler through get_input_blocking)
+                screens[me].get_user_input("value: ", hidden=(me % 2 == 1))
             elif op == 12:
                 screens[me].input_required = bool(c[1])
             elif op == 13:
